@@ -15,10 +15,12 @@ def rep {V : Type} (f : List V → V) : List V → V
   | c => f c
 
 /-- Batchability of a reduction function, exactly in the form `reduce()` uses it: reducing the
-representatives of non-empty consecutive groups equals reducing everything at once.
-(C15 proves this of the backend functions that carry `@batchable`; here it is a hypothesis.) -/
+representatives of at least two non-empty consecutive groups equals reducing everything at once
+(`f` is never applied to a single value by the batching: that would be the backends' other
+overload, the reduction of one array). C15 proves this of the backend functions that carry
+`@batchable`; here it is a hypothesis. -/
 def IsBatchable {V : Type} (f : List V → V) : Prop :=
-  ∀ gs : List (List V), (∀ g ∈ gs, g ≠ []) → f (gs.map (rep f)) = f gs.flatten
+  ∀ gs : List (List V), 2 ≤ gs.length → (∀ g ∈ gs, g ≠ []) → f (gs.map (rep f)) = f gs.flatten
 
 /-- the node at a position does not depend on the index given for `name` -/
 def Indep (a : NodeArray) (name : String) : Prop := ∀ (ix : Ix) (v : Nat), a.node (ix.set name v) = a.node ix
@@ -156,6 +158,17 @@ theorem chunks_map {α β : Type} (f : α → β) (b : Nat) (xs : List α) :
     rw [← List.map_drop, ih]
     simp [List.map_take]
 
+theorem chunks_length_ge_two {α : Type} (b : Nat) (hb : b ≠ 0) (xs : List α) (hx : b < xs.length) :
+    2 ≤ (chunks b xs).length := by
+  have hne : xs ≠ [] := by intro h; subst h; simp at hx
+  have hd : xs.drop b ≠ [] := by
+    intro h
+    have := congrArg List.length h
+    simp at this
+    omega
+  rw [chunks_cons b xs hb hne, chunks_cons b (xs.drop b) hb hd]
+  simp
+
 /-- with `b ≥ 2` chunking a list longer than `b` gives strictly fewer items: the loop terminates -/
 theorem chunks_length_lt {α : Type} (b : Nat) (hb : 2 ≤ b) (xs : List α) (hx : b < xs.length) :
     (chunks b xs).length < xs.length := by
@@ -273,9 +286,12 @@ theorem valsAlong_batchLevel {V : Type} (S : Sem V) (p : Payload) (d : String) (
 
 /-- one batching round does not change what the reduction of the dimension yields -/
 theorem apply_batchLevel {V : Type} (S : Sem V) (p : Payload) (hB : IsBatchable (p.apply S)) (d : String) (b lvl : Nat)
-    (hb : b ≠ 0) (a : NodeArray) (ix : Ix) (hne : batchDimName lvl d ≠ d) (hI : Indep a (batchDimName lvl d)) :
+    (hb : b ≠ 0) (a : NodeArray) (hlt : b < a.dimSize d) (ix : Ix) (hne : batchDimName lvl d ≠ d)
+    (hI : Indep a (batchDimName lvl d)) :
     p.apply S (valsAlong S (batchLevel p d b lvl a) (batchDimName lvl d) ix) = p.apply S (valsAlong S a d ix) := by
-  rw [valsAlong_batchLevel S p d b lvl a ix hne hI, hB _ (chunks_ne_nil b _), chunks_flatten b hb]
+  have h2 : 2 ≤ (chunks b (valsAlong S a d ix)).length :=
+    chunks_length_ge_two b hb _ (by simpa [valsAlong, NodeArray.along] using hlt)
+  rw [valsAlong_batchLevel S p d b lvl a ix hne hI, hB _ h2 (chunks_ne_nil b _), chunks_flatten b hb]
 
 /-! #### dimension bookkeeping -/
 
@@ -371,13 +387,14 @@ theorem batchLoop_spec {V : Type} (S : Sem V) (p : Payload) (hB : IsBatchable (p
     intro level d a d' a' hF hdim h
     simp only [batchLoop] at h
     split at h
-    · obtain ⟨hI, hN⟩ := hF level d (Nat.le_refl _)
+    · rename_i hlt
+      obtain ⟨hI, hN⟩ := hF level d (Nat.le_refl _)
       have hne : batchDimName level d ≠ d := batchDimName_ne level d d (Nat.le_refl _)
       obtain ⟨h1, h2, h3, h4⟩ := ih (level + 1) _ _ d' a' (batchFresh_batchLevel p d b level a hF)
         (findDim_batchLevel p d b level a) h
       refine ⟨?_, ?_, ?_, h4⟩
       · intro ix
-        rw [h1 ix, apply_batchLevel S p hB d b level hb a ix hne hI]
+        rw [h1 ix, apply_batchLevel S p hB d b level hb a hlt ix hne hI]
       · rw [h2, batchLevel_rest p d b level a hN, allIndexed_idem]
       · rw [h3]; rfl
     · cases h; exact ⟨fun _ => rfl, rfl, rfl, hdim⟩
@@ -533,7 +550,7 @@ theorem sum_flatten_rat (gs : List (List Rat)) : gs.flatten.sum = (gs.map List.s
 /-- `sum` over exact rationals is batchable (the instance used in `c13_mean_std`) -/
 theorem sum_batchable (src : Nat → Rat) (kw : List (String × Static)) :
     IsBatchable ((backendPayload "sum" kw).apply (ratSem src)) := by
-  intro gs _
+  intro gs _ _
   rw [apply_sum, apply_sum, sum_flatten_rat]
   congr 1
   apply List.map_congr_left
